@@ -57,6 +57,14 @@ type hWorld struct {
 	srvNew map[uint32]*Stream
 	hist   string
 	dead   bool // a session was closed (terminal operation)
+	pins   [2][2][]hPin // zero-copy read results not yet released, per stream and side
+}
+
+// hPin is a slice returned by ReadBytes that the reader has not released yet (C08: it must keep its contents).
+type hPin struct {
+	got  []byte
+	want []byte
+	pos  int
 }
 
 func (w *hWorld) own(prop string) bool { return w.prop == prop || w.prop == "ALL" }
@@ -236,13 +244,14 @@ func (w *hWorld) op(o string) bool {
 				return false
 			}
 		}
-		var b []byte
+		var b, raw []byte
 		var err error
 		w.run(side, func() {
 			st.SetReadDeadline(vrt.Now().Add(20 * ms))
 			var rb []byte
 			rb, err = st.BufferReader().ReadBytes(n)
 			b = append([]byte{}, rb...)
+			raw = rb
 		})
 		switch {
 		case e.closed:
@@ -254,9 +263,11 @@ func (w *hWorld) op(o string) bool {
 				w.fail("C07", "end-before-data", "%s: %d flushed bytes are outstanding, ReadBytes(%d) returned %v", o, avail, n, err)
 				return true
 			}
-			if want := patBytes(hKey(i, 1-side), w.got[i][side], n); !bytes.Equal(b, want) {
+			want := patBytes(hKey(i, 1-side), w.got[i][side], n)
+			if !bytes.Equal(b, want) {
 				w.fail("C07", "foreign-or-reordered", "%s: read %x, the stream's next bytes are %x", o, b, want)
 			}
+			w.pins[i][side] = append(w.pins[i][side], hPin{got: raw, want: want, pos: w.got[i][side]})
 			w.got[i][side] += n
 		default: // nothing outstanding
 			if peerClosed {
@@ -272,6 +283,7 @@ func (w *hWorld) op(o string) bool {
 			return false
 		}
 		w.run(side, func() { st.BufferReader().ReleasePreviousRead() })
+		w.pins[i][side] = nil
 	case 'x':
 		var err error
 		w.run(side, func() { err = st.Close() })
@@ -282,6 +294,7 @@ func (w *hWorld) op(o string) bool {
 			e.firstClose = "local"
 		}
 		e.closed = true
+		w.pins[i][side] = nil
 	default:
 		return false
 	}
@@ -289,8 +302,47 @@ func (w *hWorld) op(o string) bool {
 	return true
 }
 
+// checkPins: every unreleased read result still holds the bytes it was returned with.
+func (w *hWorld) checkPins(after string) {
+	for i := 0; i < 2; i++ {
+		for side := 0; side < 2; side++ {
+			for _, pn := range w.pins[i][side] {
+				if !bytes.Equal(pn.got, pn.want) {
+					w.fail("C08", "pin-invalidated", "after %s: the %d bytes ReadBytes returned at position %d of stream %d side %d (not released since) now read %x, were %x", after, len(pn.want), pn.pos, i, side, pn.got, pn.want)
+				}
+			}
+		}
+	}
+}
+
+// adversary allocates every free buffer, fills it with 0xEE and recycles it: what was handed back too early is overwritten.
+func (w *hWorld) adversary() {
+	w.run(0, func() {
+	  // (twice: the free list never hands out its last element, and a buffer that was just recycled IS the last one)
+	  for round := 0; round < 2; round++ {
+		var got []*bufferSlice
+		for _, l := range w.p.bm.lists {
+			for {
+				s, err := l.pop()
+				if err != nil {
+					break
+				}
+				for k := range s.data {
+					s.data[k] = 0xEE
+				}
+				got = append(got, s)
+			}
+		}
+		for _, s := range got {
+			w.p.bm.recycleBuffer(s)
+		}
+	  }
+	})
+}
+
 // invariants are evaluated in every reached (quiescent) state.
 func (w *hWorld) invariants(after string) {
+	w.checkPins(after)
 	for i := 0; i < 2; i++ {
 		if !w.opened[i] {
 			continue
@@ -412,6 +464,10 @@ func (w *hWorld) key() string {
 func (w *hWorld) complete() {
 	if w.dead {
 		return
+	}
+	if w.own("C08") {
+		w.adversary()
+		w.checkPins("the adversary (every free buffer allocated, overwritten, recycled)")
 	}
 	w.run(0, func() {
 		for i := 0; i < 2; i++ {
@@ -660,3 +716,4 @@ func runHistories(w *worker, prop string, depthQuick, depthThorough int) bool {
 	}
 	return false
 }
+
